@@ -9,24 +9,30 @@ fn bit_at(buf: &[u8], i: usize) -> bool {
     buf[i / 8] & (0x80 >> (i % 8)) != 0
 }
 
-/// independent bit width (X.691 11.5.4: minimum number of bits to hold `range`)
-fn width(mut range: u64) -> usize {
-    let mut w = 0;
-    while range > 0 {
-        w += 1;
-        range >>= 1;
-    }
-    w
+/// independent bit width (X.691 11.5.4: minimum number of bits to hold `range`), loop free
+fn width(range: u64) -> usize {
+    if range == 0 { 0 } else { range.ilog2() as usize + 1 }
 }
 
-/// expected: bits [pos, pos+w) are the w-bit big-endian `v`; everything else as in `before`
+fn as_u128(buf: &[u8; N]) -> u128 {
+    let mut x = [0u8; 16];
+    x[16 - N..].copy_from_slice(&buf[..]);
+    u128::from_be_bytes(x)
+}
+
+/// expected: bits [pos, pos+w) are the w-bit big-endian `v`; everything else as in `before`.
+/// Loop-free: the whole buffer is compared as one 96-bit number.
 fn check_field(before: &[u8; N], after: &[u8; N], pos: usize, w: usize, v: u64) {
-    let mut i = 0;
-    while i < N * 8 {
-        let want = if i >= pos && i < pos + w { (v >> (w - 1 - (i - pos))) & 1 == 1 } else { bit_at(before, i) };
-        assert!(bit_at(after, i) == want);
-        i += 1;
-    }
+    check_field128(before, after, pos, w, v as u128)
+}
+
+fn check_field128(before: &[u8; N], after: &[u8; N], pos: usize, w: usize, v: u128) {
+    assert!(pos + w <= N * 8);
+    let shift = (N * 8 - pos - w) as u32;
+    let field_mask: u128 = if w == 0 { 0 } else { ((1u128 << w) - 1) << shift };
+    let want = (as_u128(before) & !field_mask) | ((v << shift) & field_mask);
+    assert!(v >> w == 0);
+    assert!(as_u128(after) == want);
 }
 
 fn start() -> ([u8; N], usize) {
@@ -39,7 +45,7 @@ fn start() -> ([u8; N], usize) {
 /// 11.5 constrained whole number: Ok iff lb <= v <= ub; bits == nbits(v - lb, width(ub - lb)); frame; round trip.
 /// complete: loops bounded by 64 (bit copy) / 96 (frame check)
 #[kani::proof]
-#[kani::unwind(98)]
+#[kani::unwind(18)]
 fn per_cwn() {
     let (before, pos0) = start();
     let mut buf = before;
@@ -65,7 +71,7 @@ fn per_cwn() {
 
 /// 11.3 with bounds (as used for lengths and indices)
 #[kani::proof]
-#[kani::unwind(98)]
+#[kani::unwind(18)]
 fn per_nnbi_constrained() {
     let (before, pos0) = start();
     let mut buf = before;
@@ -102,7 +108,7 @@ fn min_octets(v: u64) -> usize {
 
 /// 11.7 semi-constrained: length octet (0 + 7 bits) + minimum octets (11.3.6, at least one); round trip
 #[kani::proof]
-#[kani::unwind(98)]
+#[kani::unwind(18)]
 fn per_semi() {
     let (before, pos0) = start();
     let mut buf = before;
@@ -115,18 +121,7 @@ fn per_semi() {
         let k = min_octets(n);
         assert_eq!(pos, pos0 + 8 + 8 * k);
         // length determinant 11.9.3.6 then the octets: together the (8 + 8k)-bit number (k << 8k) | n
-        let mut i = 0;
-        while i < N * 8 {
-            let want = if i >= pos0 && i < pos0 + 8 {
-                ((k as u64) >> (7 - (i - pos0))) & 1 == 1
-            } else if i >= pos0 + 8 && i < pos {
-                (n >> (8 * k - 1 - (i - pos0 - 8))) & 1 == 1
-            } else {
-                bit_at(&before, i)
-            };
-            assert!(bit_at(&buf, i) == want);
-            i += 1;
-        }
+        check_field128(&before, &buf, pos0, 8 + 8 * k, ((k as u128) << (8 * k)) | n as u128);
         let mut rp = pos0;
         let back = (&buf[..], &mut rp).read_semi_constrained_whole_number(lb);
         if n <= i64::MAX as u64 {
@@ -141,7 +136,7 @@ fn per_semi() {
 
 /// 11.6 normally small non-negative whole number
 #[kani::proof]
-#[kani::unwind(98)]
+#[kani::unwind(18)]
 fn per_nsnnwn() {
     let (before, pos0) = start();
     let mut buf = before;
@@ -177,7 +172,7 @@ fn min_octets_2c(v: i64) -> usize {
 
 /// 11.8 unconstrained whole number: length octet + minimum-octet 2's complement (11.4.6); round trip
 #[kani::proof]
-#[kani::unwind(98)]
+#[kani::unwind(18)]
 fn per_uwn() {
     let (before, pos0) = start();
     let mut buf = before;
@@ -186,18 +181,8 @@ fn per_uwn() {
     (&mut buf[..], &mut pos).write_unconstrained_whole_number(v).unwrap();
     let k = min_octets_2c(v);
     assert_eq!(pos, pos0 + 8 + 8 * k);
-    let mut i = 0;
-    while i < N * 8 {
-        let want = if i >= pos0 && i < pos0 + 8 {
-            ((k as u64) >> (7 - (i - pos0))) & 1 == 1
-        } else if i >= pos0 + 8 && i < pos {
-            ((v as u64) >> (8 * k - 1 - (i - pos0 - 8))) & 1 == 1
-        } else {
-            bit_at(&before, i)
-        };
-        assert!(bit_at(&buf, i) == want);
-        i += 1;
-    }
+    let low = if k == 8 { v as u64 as u128 } else { (v as u64 as u128) & ((1u128 << (8 * k)) - 1) };
+    check_field128(&before, &buf, pos0, 8 + 8 * k, ((k as u128) << (8 * k)) | low);
     let mut rp = pos0;
     assert_eq!((&buf[..], &mut rp).read_unconstrained_whole_number().unwrap(), v);
     assert_eq!(rp, pos);
@@ -205,7 +190,7 @@ fn per_uwn() {
 
 /// 11.4 2's complement with explicit bit length: Ok iff 1 <= bit_len <= 64 and the value is representable
 #[kani::proof]
-#[kani::unwind(98)]
+#[kani::unwind(18)]
 fn per_2c() {
     let (before, pos0) = start();
     let mut buf = before;
@@ -230,7 +215,7 @@ fn per_2c() {
 
 /// 11.9 length determinant, n < 16K region of every form + fragment header for n >= 16K; round trip of the announced length
 #[kani::proof]
-#[kani::unwind(98)]
+#[kani::unwind(18)]
 fn per_length_determinant() {
     let (before, pos0) = start();
     let mut buf = before;
@@ -282,7 +267,7 @@ fn per_length_determinant() {
 
 /// 14 / 23: enumeration and choice index
 #[kani::proof]
-#[kani::unwind(98)]
+#[kani::unwind(18)]
 fn per_index() {
     let (before, pos0) = start();
     let mut buf = before;
